@@ -32,7 +32,7 @@ class CallGraph:
                 continue
             for s in b["stmts"]:
                 rv = s["rv"]
-                if rv["op"] == "agg" and rv["kind"] in ("closure", "coroutine", "coroutine_closure"):
+                if rv["op"] == "agg" and rv["kind"] in ("closure", "coroutine", "coroutine_closure") and rv["closure"] in self.prog.fns:
                     es.add(rv["closure"])
                 for a in rv.get("a", []):
                     self._operand(a, es, k)
@@ -164,7 +164,7 @@ class CallGraph:
                     continue
                 for st in b["stmts"]:
                     rv = st["rv"]
-                    if rv["op"] == "agg" and rv["kind"] in ("closure", "coroutine", "coroutine_closure"):
+                    if rv["op"] == "agg" and rv["kind"] in ("closure", "coroutine", "coroutine_closure") and rv["closure"] in self.prog.fns:
                         work.append((rv["closure"], sg_t, k))  # closures inherit the bindings
                     for a in rv.get("a", []):
                         self._ctx_operand(a, sg_t, k, work)
